@@ -4,7 +4,7 @@ from vf.common import Harness, dump_image
 LEVEL = "other"
 TECHNIQUE = "CBMC frame-condition harness on the real whole scan: every shared object (compiled-rules image, YR_RULES, global tables, another scanner) is bitwise unchanged by a scan, for all inputs in the bound; interleavings are not explored"
 ASSUMPTIONS = ["REDUCTION, not a schedule exploration: scans that write only their own scanner cannot race on shared state; CBMC cannot execute real threads over this code (pointer-typed shared state, DESIGN P15)",
-               "YR_TRYCATCH's signal-handler use count (exception.h), TLS, memory-mapped files and OpenSSL-internal state are outside",
+               "YR_TRYCATCH use count: only LIFO overlaps at critical-section granularity (mutex atomicity assumed); TLS, memory-mapped files and OpenSSL-internal state are outside",
                "data <= 4 bytes; rule evaluated unconditionally"]
 LEVEL_TEXT = ("Level 'other': a solver-decided frame condition (no write outside the scan's own scanner, for every input in the bound) from which "
               "schedule-independence follows by argument; no thread interleaving is explored.")
@@ -27,4 +27,8 @@ def harnesses(ctx, tier):
                           desc="whole scan leaves the compiled rules, global tables and another scanner bitwise unchanged; rule: " + rule.strip(),
                           bounds="data <= %d bytes, fast mode on/off" % N,
                           functions=["yr_scanner_scan_mem_blocks", "_yr_scanner_scan_mem_block", "yr_scan_verify_match", "yr_execute_code"]))
+    hs.append(Harness(name="H4_trycatch_use_count", src="c09/trycatch.c", unwind=4, timeout=300,
+                      desc="YR_TRYCATCH signal-handler use count under nested (LIFO) overlaps of up to three scans, each protected or not",
+                      bounds="3 scans, LIFO overlaps, every on/off combination", functions=["YR_TRYCATCH (exception.h)"],
+                      stubs=["pthread mutex", "sigaction recorder", "sigsetjmp -> 0", "TLS"]))
     return hs
